@@ -198,7 +198,26 @@ fn small_list(n: usize, mut k: u64) -> Vec<REntry> {
 
 const PER_ENTRY: u64 = 4 * 4 * 3 * NOFF; // 240
 
+/// Tiny codec-free subset for the Miri interpreter (undefined behaviour in the reached code paths).
+fn run_miri(ctx: &mut Ctx) {
+    for i in 0..320u64 {
+        if ctx.mine(i) {
+            ctx.begin(i);
+            let mut rng = ctx.rng("c05.miri", i);
+            let n = rng.usize(1, 24);
+            let list = if i < 160 { small_list((i % 3) as usize, rng.below(PER_ENTRY.pow(2))) } else { gen::gen_entries(&mut rng, n, true, true) };
+            check_list(ctx, &list, R::C_NONE, i % 4 == 0, &mut rng);
+            ctx.case(entries_fp(&list) ^ 0x3141, true);
+            ctx.end(i);
+        }
+    }
+}
+
 pub fn run(ctx: &mut Ctx) {
+    if ctx.sub == "miri" {
+        run_miri(ctx);
+        return;
+    }
     let mut case = 0u64;
     // ---- exhaustive small lists
     // n = 0,1,2: all codecs + async; n = 3: None codec (all lists in thorough, strided in quick)
